@@ -918,29 +918,44 @@ theorem ciOf_setValue_none (t : Int) (k : Bytes) (item : Option Item) (cur : Opt
     wbLive t ((ciOf none k item).setValue none) cur = none := by
   simp [wbLive, CI.setValue]
 
-/-- the common part of the four commands: the body is `_expireat` with the instant `ts` -/
-theorem expire_gen (n : String) (body : Body) (ts : Int → Int → Int)
-    (hbody : ∀ ctx s cis, body ctx [.key 0, .int s] cis = Cmd.expireatCore ctx cis 0 (ts ctx.time s))
+theorem expireMsBad_iff (ms b : Int) :
+    Cmd.expireMsBad ms b = true ↔ (ms + b ≥ 2 ^ 63 ∨ ms < -(2 ^ 63)) := by
+  simp [Cmd.expireMsBad]
+
+/-- the common part of the four commands: the body refuses when `bad now s` (with the invalid-expire error, before
+anything else), and otherwise is `_expireat` with the instant `ts` -/
+theorem expire_gen (n : String) (body : Body) (bad : Int → Int → Bool) (ts : Int → Int → Int)
+    (hbody : ∀ ctx s cis, body ctx [.key 0, .int s] cis =
+      if bad ctx.time s then .error (Msgs.fmt1 Msgs.INVALID_EXPIRE_MSG n)
+      else Cmd.expireatCore ctx cis 0 (ts ctx.time s))
     (ctx : Ctx) (k sb : Bytes) (s : Int) (hs : Conv.int sb = .ok s) {db : Db} (nd : NodupKeys db.dict)
     (hctx : ctx.time = db.time) :
     let out := runRegular ⟨n, [K, .int], [], false, 2, 0, false⟩ body ctx none [k, sb] db
-    (db.live k = none → out.reply = .int 0 ∧ Db.purge out.db = Db.purge db) ∧
-    (∀ it, db.live k = some it → it.value.isEmptyColl = false →
-      out.reply = .int 1 ∧
-      out.db.live k = (if ts db.time s ≤ db.time then none else some ⟨it.value, some (ts db.time s)⟩) ∧
-      ∀ k', k' ≠ k → out.db.live k' = db.live k') := by
+    (bad db.time s = true →
+      out.reply = .err (strBytes (Msgs.fmt1 Msgs.INVALID_EXPIRE_MSG n)) ∧ Db.purge out.db = Db.purge db) ∧
+    (bad db.time s = false →
+      (db.live k = none → out.reply = .int 0 ∧ Db.purge out.db = Db.purge db) ∧
+      (∀ it, db.live k = some it → it.value.isEmptyColl = false →
+        out.reply = .int 1 ∧
+        out.db.live k = (if ts db.time s ≤ db.time then none else some ⟨it.value, some (ts db.time s)⟩) ∧
+        ∀ k', k' ≠ k → out.db.live k' = db.live k')) := by
   intro out
   have ha : applyL db.live ⟨n, [K, .int], [], false, 2, 0, false⟩ [k, sb] =
       .ok (.ok [.key 0, .int s] [ciOf none k (db.live k)]) := by
     rw [applyL_KI, hs]
-  refine ⟨fun hl => ?_, fun it hl hv => ?_⟩
+  refine ⟨fun hbad => ?_, fun hgood => ⟨fun hl => ?_, fun it hl hv => ?_⟩⟩
+  · have hb : body ctx [.key 0, .int s] [ciOf none k (db.live k)] =
+        .error (Msgs.fmt1 Msgs.INVALID_EXPIRE_MSG n) := by
+      rw [hbody, hctx, hbad]; rfl
+    have := run_body_err _ body ctx _ nd ha hb
+    exact ⟨this.1, this.2.2⟩
   · have hb : body ctx [.key 0, .int s] [ciOf none k (db.live k)] = .ok ⟨.int 0, [ciOf none k (db.live k)], 0⟩ := by
-      rw [hbody, hl]; rfl
+      rw [hbody, hctx, hgood, hl]; rfl
     exact ⟨(run_ok _ body ctx _ nd ha hb).1, run_clean _ body ctx _ nd ha hb rfl⟩
   · by_cases hpast : ts db.time s ≤ db.time
     · have hb : body ctx [.key 0, .int s] [ciOf none k (db.live k)] =
           .ok ⟨.int 1, [ciOf none k (db.live k)].set 0 ((ciOf none k (db.live k)).setValue none), 0⟩ := by
-        rw [hbody, hl]
+        rw [hbody, hctx, hgood, hl]
         simp only [Cmd.expireatCore, ciAt, List.getD_cons_zero, truthy_ciOf, hv, hctx, hpast]
         rfl
       refine ⟨(run_ok _ body ctx _ nd ha hb).1, ?_, fun k' hk' => ?_⟩
@@ -950,7 +965,7 @@ theorem expire_gen (n : String) (body : Body) (ts : Int → Int → Int)
         simp [CI.setValue, ciOf_key, Ne.symm hk']
     · have hb : body ctx [.key 0, .int s] [ciOf none k (db.live k)] =
           .ok ⟨.int 1, [ciOf none k (db.live k)].set 0 ((ciOf none k (db.live k)).setExpire (some (ts db.time s))), 0⟩ := by
-        rw [hbody, hl]
+        rw [hbody, hctx, hgood, hl]
         simp only [Cmd.expireatCore, ciAt, List.getD_cons_zero, truthy_ciOf, hv, hctx, hpast]
         rfl
       refine ⟨(run_ok _ body ctx _ nd ha hb).1, ?_, fun k' hk' => ?_⟩
@@ -962,36 +977,71 @@ theorem expire_gen (n : String) (body : Body) (ts : Int → Int → Int)
       · rw [one_item _ body ctx _ nd ha hb 0 (by simp) _ rfl k']
         simp [CI.setExpire, ciOf_key, Ne.symm hk']
 
+/-- the refusal condition of EXPIRE (`n` seconds) / PEXPIRE (`n` ms) / EXPIREAT (`n` s, absolute): the deadline in
+milliseconds is not a signed 64-bit number.  `now / TICKS_MS` is `int(self._db.time * 1000)`. -/
+def expireOverflow (now n : Int) : Prop := n * 1000 + now / TICKS_MS ≥ 2 ^ 63 ∨ n * 1000 < -(2 ^ 63)
+def pexpireOverflow (now n : Int) : Prop := n + now / TICKS_MS ≥ 2 ^ 63 ∨ n < -(2 ^ 63)
+def expireatOverflow (n : Int) : Prop := n * 1000 ≥ 2 ^ 63 ∨ n * 1000 < -(2 ^ 63)
+
+instance (now n : Int) : Decidable (expireOverflow now n) := by unfold expireOverflow; exact inferInstance
+instance (now n : Int) : Decidable (pexpireOverflow now n) := by unfold pexpireOverflow; exact inferInstance
+instance (n : Int) : Decidable (expireatOverflow n) := by unfold expireatOverflow; exact inferInstance
 
 theorem expire_spec (ctx : Ctx) (k sb : Bytes) (s : Int) (hs : Conv.int sb = .ok s) {db : Db}
     (nd : NodupKeys db.dict) (hctx : ctx.time = db.time) :
     let out := run "expire" ctx [k, sb] db
-    (db.live k = none → out.reply = .int 0 ∧ Db.purge out.db = Db.purge db) ∧
-    (∀ it, db.live k = some it → it.value.isEmptyColl = false →
-      out.reply = .int 1 ∧
-      out.db.live k = (if db.time + s * TICKS ≤ db.time then none else some ⟨it.value, some (db.time + s * TICKS)⟩) ∧
-      ∀ k', k' ≠ k → out.db.live k' = db.live k') :=
-  expire_gen "expire" Cmd.expire (fun t s => t + s * TICKS) (fun _ _ _ => rfl) ctx k sb s hs nd hctx
+    (expireOverflow db.time s →
+      out.reply = .err (strBytes (Msgs.fmt1 Msgs.INVALID_EXPIRE_MSG "expire")) ∧ Db.purge out.db = Db.purge db) ∧
+    (¬ expireOverflow db.time s →
+      (db.live k = none → out.reply = .int 0 ∧ Db.purge out.db = Db.purge db) ∧
+      (∀ it, db.live k = some it → it.value.isEmptyColl = false →
+        out.reply = .int 1 ∧
+        out.db.live k = (if db.time + s * TICKS ≤ db.time then none else some ⟨it.value, some (db.time + s * TICKS)⟩) ∧
+        ∀ k', k' ≠ k → out.db.live k' = db.live k')) := by
+  have h := expire_gen "expire" Cmd.expire (fun t s => Cmd.expireMsBad (s * 1000) (t / TICKS_MS))
+    (fun t s => t + s * TICKS) (fun _ _ _ => rfl) ctx k sb s hs nd hctx
+  refine ⟨fun hb => h.1 ((expireMsBad_iff _ _).2 hb), fun hg => h.2 ?_⟩
+  cases hc : Cmd.expireMsBad (s * 1000) (db.time / TICKS_MS)
+  · rfl
+  · exact absurd ((expireMsBad_iff _ _).1 hc) hg
 
 theorem pexpire_spec (ctx : Ctx) (k sb : Bytes) (s : Int) (hs : Conv.int sb = .ok s) {db : Db}
     (nd : NodupKeys db.dict) (hctx : ctx.time = db.time) :
     let out := run "pexpire" ctx [k, sb] db
-    (db.live k = none → out.reply = .int 0 ∧ Db.purge out.db = Db.purge db) ∧
-    (∀ it, db.live k = some it → it.value.isEmptyColl = false →
-      out.reply = .int 1 ∧
-      out.db.live k = (if db.time + s * TICKS_MS ≤ db.time then none else some ⟨it.value, some (db.time + s * TICKS_MS)⟩) ∧
-      ∀ k', k' ≠ k → out.db.live k' = db.live k') :=
-  expire_gen "pexpire" Cmd.pexpire (fun t s => t + s * TICKS_MS) (fun _ _ _ => rfl) ctx k sb s hs nd hctx
+    (pexpireOverflow db.time s →
+      out.reply = .err (strBytes (Msgs.fmt1 Msgs.INVALID_EXPIRE_MSG "pexpire")) ∧ Db.purge out.db = Db.purge db) ∧
+    (¬ pexpireOverflow db.time s →
+      (db.live k = none → out.reply = .int 0 ∧ Db.purge out.db = Db.purge db) ∧
+      (∀ it, db.live k = some it → it.value.isEmptyColl = false →
+        out.reply = .int 1 ∧
+        out.db.live k = (if db.time + s * TICKS_MS ≤ db.time then none else some ⟨it.value, some (db.time + s * TICKS_MS)⟩) ∧
+        ∀ k', k' ≠ k → out.db.live k' = db.live k')) := by
+  have h := expire_gen "pexpire" Cmd.pexpire (fun t s => Cmd.expireMsBad s (t / TICKS_MS))
+    (fun t s => t + s * TICKS_MS) (fun _ _ _ => rfl) ctx k sb s hs nd hctx
+  refine ⟨fun hb => h.1 ((expireMsBad_iff _ _).2 hb), fun hg => h.2 ?_⟩
+  cases hc : Cmd.expireMsBad s (db.time / TICKS_MS)
+  · rfl
+  · exact absurd ((expireMsBad_iff _ _).1 hc) hg
 
 theorem expireat_spec (ctx : Ctx) (k sb : Bytes) (s : Int) (hs : Conv.int sb = .ok s) {db : Db}
     (nd : NodupKeys db.dict) (hctx : ctx.time = db.time) :
     let out := run "expireat" ctx [k, sb] db
-    (db.live k = none → out.reply = .int 0 ∧ Db.purge out.db = Db.purge db) ∧
-    (∀ it, db.live k = some it → it.value.isEmptyColl = false →
-      out.reply = .int 1 ∧
-      out.db.live k = (if s * TICKS ≤ db.time then none else some ⟨it.value, some (s * TICKS)⟩) ∧
-      ∀ k', k' ≠ k → out.db.live k' = db.live k') :=
-  expire_gen "expireat" Cmd.expireat (fun _ s => s * TICKS) (fun _ _ _ => rfl) ctx k sb s hs nd hctx
+    (expireatOverflow s →
+      out.reply = .err (strBytes (Msgs.fmt1 Msgs.INVALID_EXPIRE_MSG "expireat")) ∧ Db.purge out.db = Db.purge db) ∧
+    (¬ expireatOverflow s →
+      (db.live k = none → out.reply = .int 0 ∧ Db.purge out.db = Db.purge db) ∧
+      (∀ it, db.live k = some it → it.value.isEmptyColl = false →
+        out.reply = .int 1 ∧
+        out.db.live k = (if s * TICKS ≤ db.time then none else some ⟨it.value, some (s * TICKS)⟩) ∧
+        ∀ k', k' ≠ k → out.db.live k' = db.live k')) := by
+  have h := expire_gen "expireat" Cmd.expireat (fun _ s => Cmd.expireMsBad (s * 1000) 0)
+    (fun _ s => s * TICKS) (fun _ _ _ => rfl) ctx k sb s hs nd hctx
+  have hiff : Cmd.expireMsBad (s * 1000) 0 = true ↔ expireatOverflow s := by
+    rw [expireMsBad_iff, Int.add_zero]; rfl
+  refine ⟨fun hb => h.1 (hiff.2 hb), fun hg => h.2 ?_⟩
+  cases hc : Cmd.expireMsBad (s * 1000) 0
+  · rfl
+  · exact absurd (hiff.1 hc) hg
 
 theorem pexpireat_spec (ctx : Ctx) (k sb : Bytes) (s : Int) (hs : Conv.int sb = .ok s) {db : Db}
     (nd : NodupKeys db.dict) (hctx : ctx.time = db.time) :
@@ -1001,7 +1051,8 @@ theorem pexpireat_spec (ctx : Ctx) (k sb : Bytes) (s : Int) (hs : Conv.int sb = 
       out.reply = .int 1 ∧
       out.db.live k = (if s * TICKS_MS ≤ db.time then none else some ⟨it.value, some (s * TICKS_MS)⟩) ∧
       ∀ k', k' ≠ k → out.db.live k' = db.live k') :=
-  expire_gen "pexpireat" Cmd.pexpireat (fun _ s => s * TICKS_MS) (fun _ _ _ => rfl) ctx k sb s hs nd hctx
+  (expire_gen "pexpireat" Cmd.pexpireat (fun _ _ => false) (fun _ s => s * TICKS_MS) (fun _ _ _ => rfl)
+    ctx k sb s hs nd hctx).2 rfl
 
 /-! ### PERSIST -/
 
